@@ -260,3 +260,20 @@ def explore(body, start, facts=None, removed_edges=(), removed_blocks=(), learn=
 
 def reach_consistent(body, start, facts, removed_edges=(), removed_blocks=()):  # noqa: F811 (supersedes the simple version)
     return set(explore(body, start, facts, removed_edges, removed_blocks).keys())
+
+
+def const_str_of(prog, body, node):
+    """string value of a (possibly promoted) constant node, else None"""
+    from .facts import peel
+    n = peel(node)
+    if n.kind != "const":
+        return None
+    v = n.a.as_str()
+    if v is not None:
+        return v
+    pt = promoted_tree(prog, body, n.a)
+    if pt is not None:
+        q = peel(pt)
+        if q.kind == "const":
+            return q.a.as_str()
+    return None
